@@ -19,7 +19,7 @@ LEVEL = "exploration"
 RULE = (
     "decision function: every string dddd-dd-dd with year 1990..2199, month 00..99, day 00..99 (2.1M, exhaustive; thorough: the complete 10^8 domain years 0000..9999) "
     "plus None/'' : supports_batching(v) == (v < '2025-06-18') == (ProtocolVersion.compare(v,'2025-06-18') < 0); "
-    "transport: operation sequences over an entered StdioClient with a scripted child: set_protocol_version(v in none / supported / cutoff neighbours), "
+    "transport: operation sequences over an entered StdioClient with a scripted child: set_protocol_version(v in none / supported / cutoff neighbours), tracked initialize handshake (preferred x answered version, all 81 pairs enumerated), "
     "single message line, batch line of 0..4 members mixing valid and invalid items, stall window (the child stops reading its stdin while k in 0..130 outgoing messages pile up and 1..3 lines arrive, then reads again); after every line the delivered messages and the bytes written back are compared "
     "with the reference for the current mode; non-trivial (decision) = version within 45 days of the cutoff or differing from it in exactly one field; "
     "(transport) = a batch after a mode change or a batch mixing valid and invalid members; distinct = distinct string / distinct sequence"
@@ -149,7 +149,7 @@ def check(case: Dict[str, Any]) -> Outcome:
 
     out = Outcome()
     ops: List[List[Any]] = case["ops"]
-    flags = {"batch_after_mode_change": False, "mixed_batch": False, "stalled_window": False, "rejection_behind_full_queue": False}
+    flags = {"batch_after_mode_change": False, "mixed_batch": False, "stalled_window": False, "rejection_behind_full_queue": False, "version_by_handshake": False, "handshake_across_cutoff": False}
 
     async def main() -> None:
         procs: List[FakeProcess] = []
@@ -171,6 +171,45 @@ def check(case: Dict[str, Any]) -> Outcome:
                             if mode != last_mode:
                                 mode_changed_since_batch = True
                             last_mode = mode
+                        continue
+                    if op[0] == "handshake":
+                        # the version arrives the way it does in real use: a tracked initialize handshake in which the
+                        # client proposes one version and the (scripted) server answers with another one it supports
+                        from chuk_mcp.protocol.messages.initialize.send_messages import send_initialize_with_client_tracking
+
+                        sup = [v_ for v_ in VERSIONS if v_ is not None]
+                        preferred = sup[op[1] % len(sup)]
+                        answered = sup[op[2] % len(sup)]
+                        hbuf = {"b": b""}
+
+                        def responder(data: bytes, answered=answered) -> None:
+                            hbuf["b"] += data
+                            while b"\n" in hbuf["b"]:
+                                line, hbuf["b"] = hbuf["b"].split(b"\n", 1)
+                                try:
+                                    m_ = json.loads(line)
+                                except Exception:
+                                    continue
+                                if isinstance(m_, dict) and m_.get("method") == "initialize":
+                                    proc.stdout.feed((json.dumps({"jsonrpc": "2.0", "id": m_["id"], "result": {"protocolVersion": answered, "capabilities": {}, "serverInfo": {"name": "s", "version": "1"}}}) + "\n").encode())
+
+                        proc.on_stdin = responder
+                        try:
+                            await send_initialize_with_client_tracking(read, _write, client=client, timeout=1.0, supported_versions=list(sup), preferred_version=preferred)
+                        except Exception as e_:  # noqa
+                            out.fail("tracked-handshake-failed", f"step {step}: preferred {preferred!r} answered {answered!r}: {type(e_).__name__}: {e_}")
+                            return
+                        finally:
+                            proc.on_stdin = None
+                        await asyncio.sleep(0.01)
+                        flags["version_by_handshake"] = True
+                        if (preferred < CUTOFF) != (answered < CUTOFF):
+                            flags["handshake_across_cutoff"] = True
+                        version = answered
+                        mode = answered < CUTOFF
+                        if mode != last_mode:
+                            mode_changed_since_batch = True
+                        last_mode = mode
                         continue
                     accepting = version is None or version < CUTOFF
                     if op[0] == "stalled":
@@ -330,8 +369,11 @@ _sub = st.one_of(st.tuples(st.just("single"), st.integers(0, 4)).map(list), st.t
 _stalled = st.tuples(st.just("stalled"), st.sampled_from([0, 1, 5, 99, 100, 101, 102, 130]), st.lists(_sub, min_size=1, max_size=3)).map(list)
 
 
+_handshake = st.tuples(st.just("handshake"), st.integers(0, 8), st.integers(0, 8)).map(list)
+
+
 def cases():
-    return st.lists(st.one_of(_op, _op, _op, _op, _stalled), min_size=1, max_size=30).map(lambda ops: {"ops": ops})
+    return st.lists(st.one_of(_op, _op, _op, _op, _stalled, _handshake), min_size=1, max_size=30).map(lambda ops: {"ops": ops})
 
 
 def job_hyp(col: Collector, seed: int, tier: str, shard: int, n: int) -> None:
@@ -345,6 +387,12 @@ def job_matrix(col: Collector, seed: int, tier: str) -> None:
     for vi in range(len(VERSIONS)):
         for sh in shapes:
             case = {"ops": [["version", vi], ["batch", sh], ["single", 1], ["version", (vi + 1) % len(VERSIONS)], ["batch", sh]]}
+            col.record(case, check(case))
+    # the version set through a tracked handshake: every (preferred, answered) pair of the 9 versions, then a batch
+    nv = len([v for v in VERSIONS if v is not None])
+    for pi in range(nv):
+        for ai in range(nv):
+            case = {"ops": [["handshake", pi, ai], ["batch", [["v", 0], ["i", 0], ["v", 2]]], ["single", 1], ["batch", []]]}
             col.record(case, check(case))
     # the same decision while the child is not reading its stdin and k messages are queued behind the blocked write
     for vi in range(len(VERSIONS)):
